@@ -230,7 +230,7 @@ def shrink_source(src, risky, sig):
             return False
         d = check_case({"source": s, "risky": risky})
         return d is not None and tuple(d[0]) == tuple(sig)
-    out = common.ddmin(lines, fails, max_tests=300)
+    out = common.ddmin(lines, fails, max_tests=150)
     return "\n".join(out) + "\n"
 
 
@@ -247,9 +247,11 @@ def main(tier, seed, t0):
     nsh = common.NCPU * (1 if tier == "quick" else 4)
     args = [(common.shard_seed(seed, i), total // nsh + 1, 60) for i in range(nsh)]
     col.merge(common.run_shards(shard, args))
-    for sig, b in list(col.buckets.items()):
+    shrunk = 0
+    for sig, b in sorted(col.buckets.items(), key=lambda kv: str(kv[0])):
         kind, _ = common.classify(ID, sig)
-        if kind == "new":
+        if kind == "new" and tier == "thorough" and shrunk < 8:
+            shrunk += 1
             ex = b["examples"][0]
             try:
                 b["examples"] = [{"source": shrink_source(ex["source"], ex.get("risky"), sig), "risky": ex.get("risky")}]
